@@ -405,6 +405,7 @@ Fixpoint vstmt (track : bool) (x : stmt) (stk : stack) (s : st) {struct x} : st 
                    end) handlers s1 in
       vblock finalbody stk (vblock orelse stk s2)
   | SPass ln => with_ln s ln
+  | SDoc ln _ _ => with_ln s ln          (* an Expr statement holding a Constant *)
   end.
 
 Definition vblock (track : bool) (l : list stmt) (stk : stack) (s : st) : st :=
@@ -471,6 +472,25 @@ Definition finder (bi : list name) (ns : list (list name)) (track : bool) (p : p
   let miss := sort_by key_leb (map (fun m => (m_line m, m_name m)) (missing s1)) in
   let s2 := if track then scan_unused stk s1 else s1 in
   (miss, sort_by ukey_leb (unused s2)).
+
+(* scan_for_import_issues with parse_docstrings=True (what fix_unused_and_missing_imports calls):
+     missing_imports = sorted(self.missing_imports)                  # before the docstrings
+     for block in codeblock.get_doctests():                          # one block per doctest example
+         with self._NewScopeCtx(check_unused_imports=False): self._scan_node(block.ast_node)
+     for ident in literal_brace_identifiers: symbol_needs_import(ident, self.scopestack)
+     self._scan_unused_imports()                                                                   *)
+Definition scan_doctest (track : bool) (stk : stack) (s : st) (d : stmt) : st :=
+  let '(stkD, s1) := push s stk false false false in
+  scan_node track [d] stkD s1.
+Definition finder_doc (bi : list name) (ns : list (list name)) (p : program)
+  : list (nat * dotted) * list (nat * import) :=
+  let '(stk, s0) := init_state bi ns in
+  let s1 := scan_node true p stk s0 in
+  let miss := sort_by key_leb (map (fun m => (m_line m, m_name m)) (missing s1)) in
+  let s2 := fold_left (scan_doctest true stk) (flat_map fst (docstrings_of p)) s1 in
+  let s3 := fold_left (fun s n => snd (needs s stk [n])) (brace_ids p) s2 in
+  (miss, sort_by ukey_leb (unused (scan_unused stk s3))).
+Definition scan_issues_doc (bi : list name) (p : program) := finder_doc bi [[]] p.
 
 (* find_missing_imports(src, namespaces): sorted(set(name for lineno, name in missing)) *)
 Definition find_missing (bi : list name) (ns : list (list name)) (p : program) : list dotted :=
